@@ -259,11 +259,24 @@ func c02Run(ctx *Ctx, c c02Case) {
 		}
 	})
 	typ := root.Name
-	other := "Patient"
-	if typ == "Patient" {
-		other = "Observation"
+	// mismatching roots: every type whose name contains, or is contained in, this one
+	// (Person / RelatedPerson, Group / RequestGroup, Medication / MedicationRequest …), then
+	// the other types in rotation
+	var others []string
+	for _, rt := range allResTypes {
+		if rt.Name != typ && (strings.Contains(rt.Name, typ) || strings.Contains(typ, rt.Name)) {
+			others = append(others, rt.Name)
+		}
 	}
+	nRelated := len(others)
 	for pi, names := range paths {
+		other := allResTypes[(pi*31+len(typ))%len(allResTypes)].Name
+		if nRelated > 0 && (pi/4)%2 == 0 {
+			other = others[(pi/8)%nRelated]
+		}
+		if other == typ {
+			other = allResTypes[(pi*31+len(typ)+1)%len(allResTypes)].Name
+		}
 		steps := make([]step, len(names))
 		for i, nm := range names {
 			steps[i] = step{nm, -1}
